@@ -75,11 +75,12 @@ func c16base() *Cfg {
 }
 
 func init() {
-	flagSets := [][]string{{}, {"--ignore-missing-params"}, {"--ignore-missing-services"}, {"--ignore-missing-params", "--ignore-missing-services"}}
+	flagSets := [][]string{{}, {"--ignore-missing-params"}, {"--ignore-missing-services"}, {"--ignore-missing-params", "--ignore-missing-services"},
+		{"--stub"}, {"--stub", "--ignore-missing-params"}, {"--stub", "--ignore-missing-services"}, {"--stub", "--ignore-missing-params", "--ignore-missing-services"}}
 	Register(&Check{
 		ID:    "C16",
 		Level: "exploration",
-		Rule: "all subsets of size <= k (k=5 quick, all 1024 subsets thorough) of 11 injected defects {missing param x3 positions, missing service x3 positions, param cycle, service cycle, scope violation, scope violation on a service that also has missing dependencies, grammar violation} x the 4 combinations of --ignore-missing-params / --ignore-missing-services; " +
+		Rule: "all subsets of size <= k (k=5 quick, all 1024 subsets thorough) of 11 injected defects {missing param x3 positions, missing service x3 positions, param cycle, service cycle, scope violation, scope violation on a service that also has missing dependencies, grammar violation} x the 4 combinations of --ignore-missing-params / --ignore-missing-services, each with and without --stub; " +
 			"non-trivial = at least one defect and at least one flag set; distinct = distinct (defect set, flags)",
 		Assumptions: []string{
 			"diagnostic classes are told apart by the rule prefix the tool prints; lines are compared as ordered lists between flag combinations",
@@ -127,6 +128,14 @@ func init() {
 								return
 							}
 							lines := ErrorLines(br.Out)
+							if fi == 4 {
+								// the --stub block is compared with its own no-ignore-flag run
+								if br.Exit != base.Exit || strings.Join(lines, "\n") != strings.Join(baseLines, "\n") {
+									c.Violation("stub-changes-diagnostics", fmt.Sprintf("defects %s: --stub changes the verdict or the diagnostics", desc), fm, nil)
+								}
+								base, baseLines = br, lines
+								continue
+							}
 							if fi == 0 {
 								base, baseLines = br, lines
 								// independent expectation for the no-flag run
